@@ -6,6 +6,10 @@
 //! Symbolic: the `AccountState` of the cached account (all four variants), every bit of the cached slot VALUES, of the
 //! cached balance / nonce / code hash, and the inner database's answers (Ok / Err, payload, error code).
 //!
+//! Required options (props/C20.py `_KCB_ARGS`; without them no harness with a cached account finishes):
+//!   `--no-assertion-reach-checks` (the reach checks cost 109 traces / 457 MB of JSON per harness; the explicit covers are the
+//!   vacuity guard) and `--cbmc-args --max-field-sensitivity-array-size 2048` (the table allocation must stay field-sensitive).
+//!
 //! Oracle (C21, database-layer part; C20 'has-storage answer'), written here without calling the code under test:
 //!   has_storage(a) = true                       if the cache holds a NON-ZERO slot of a;
 //!                    false                      else if the cached account state is StorageCleared / NotExisting;
